@@ -195,6 +195,19 @@ func (x *Exec) remat(st *State, v ssa.Value) Value {
 			x.step(st, x.fx.fn, ins, true)
 			return st.env[v]
 		}
+	case *ssa.Range:
+		// an iterator created before the cut: an object allocated earlier (distinct from everything
+		// allocated from now on), still iterating over the same map / string value
+		name := sym("it:" + ins.Name())
+		st.declare(name, "Int")
+		st.assume(fmt.Sprintf("(and (> %s 0) (< %s %s))", name, name, st.brk))
+		for _, o := range st.remat {
+			st.assume(fmt.Sprintf("(not (= %s %s))", name, o))
+		}
+		st.remat = append(st.remat, name)
+		val := Value{K: VRef, T: name, Ty: ins.Type(), Fs: []Value{x.get(st, ins.X)}}
+		st.env[v] = val
+		return val
 	case *ssa.MakeMap:
 		val := st.named(v.Type(), "v:"+v.Name())
 		st.assume("(not (= " + val.T + " 0))") // a made map is never nil
